@@ -22,6 +22,8 @@ TRUSTED = [
     '(ExtrOcamlBasic only), ocaml/c06_driver.ml; Diffie-Hellman in the model is the Gallina ladder for a sample and a Go-computed table for the rest',
 ]
 ASSUMPTIONS = [
+    'every connection of a session: Model/SessionKey.v (reply carries the key of the session the connection joined; fresh key only on creation) with C06_agreement_every_connection_tls / C06_same_session_same_key; the correspondence presents k = 1..4 connections with one session id and one with another to ONE server State, in sequence and overlapped, and demands client key = server session key for each. Which connection of an overlapped batch creates the session is decided by the scheduler and not represented (the statement does not depend on it). One session per id / cap / ownership of the table are C15\'s (its check reports a joining connection that gets another key as key-changed)',
+    'the admin session is private to dispatchConnection: agreement there is checked functionally (an API request through a multiplexer session built from the client\'s key must get an HTTP answer)',
     'UID of exactly 16 bytes; proxy-method name of 1..12 bytes without leading/trailing NUL (both guards are exact: C06_method_trailing_nul, '
     'C06_method_13_truncated, C06_uid_18_spills)',
     'timestamps below 2^62 s for C06_window (beyond that time.Unix wraps; the model reproduces the wrap, the correspondence samples it)',
@@ -178,6 +180,12 @@ def gen_cases(ctx):
                 cases.append([cid, '%s MS %s %s %s %d %s m%d-%d' % (cid, tr, br, enc, nconn, mode, ctx.seed, k),
                               dict(kind='M', transport=tr, browser=br, enc=enc, nconn=nconn, mode=mode, dh='-', name='www.example.com')])
                 k += 1
+    # the admin session (AdminUID, session id 0): the server's session object is private to dispatchConnection, so key agreement
+    # is shown functionally - an API request sent through a multiplexer session built from the CLIENT's key must be answered
+    for k, (tr, br) in enumerate((('direct', 'firefox'), ('cdn', 'chrome'), ('direct', 'chrome'), ('direct', 'safari'))[:2 if q else 4]):
+        enc = ['aes-gcm', 'plain', 'chacha20-poly1305', 'aes-128-gcm'][k % 4]
+        cases.append(['a%d' % k, 'a%d AS %s %s %s a%d-%d' % (k, tr, br, enc, ctx.seed, k),
+                      dict(kind='A', transport=tr, browser=br, enc=enc, dh='-', name='www.example.com')])
     # forged first packets: ephemeral value = a small-order X25519 input (or an encoding that is one only without the
     # bit-255 masking), block sealed by the sender under the all-zero key.  Not a handshake of any configured client:
     # only the two server-side models (this one and Model/Hello.v of C07) are compared with the real parser + decryptor
@@ -247,6 +255,8 @@ def model_line(cid, c, io):
     if c['kind'] == 'D':
         return '%s D %s %s' % (cid, c['pt'], zhex(c['now']))
     g = kv(io)
+    if c['kind'] == 'A':
+        return None
     if c['kind'] == 'M':
         # arrival order = index order; the first connection of a session id brings the key the server session holds
         # (observed), the later ones a key of their own that must NOT show up anywhere
@@ -322,6 +332,13 @@ def run_model(ctx, lines, tag, par=4):
 def oracle(c, g):
     """Property text: the server recovers exactly the configured UID, method, encryption method, session id and flag,
     and both ends hold the same 32-byte session key.  c = configured, g = what the implementation did."""
+    if c['kind'] == 'A':
+        if g.get('ok') != '1':
+            return 'admin handshake failed for a correctly configured admin client: %s' % g.get('cerr', g.get('note', g))
+        if not bytes.fromhex(g['api'] if g.get('api', '-') != '-' else '').startswith(b'HTTP/1.'):
+            return ('admin session: the two ends do not hold the same session key - an API request sent through a multiplexer session built '
+                    'from the client\'s key %s.. got no HTTP answer (%s)' % (g.get('ckey', '?')[:16], g.get('api')))
+        return None
     if c['kind'] == 'M':
         # property text: both ends end up with the same 32-byte session key - for EVERY connection of the session
         n = int(g.get('n', 0))
@@ -491,6 +508,8 @@ def correspondence(ctx, verdict, pr):
             kinds.append('D/' + g.get('S', '?')[:8].split(':')[0] + ('/edge' if abs(abs(c['delta']) - 180 * 10**9) <= 2 * 10**9 else ''))
         elif c['kind'] == 'F':
             kinds.append('F/%s/%s' % (c['transport'], g.get('S', '?')))
+        elif c['kind'] == 'A':
+            kinds.append('A/%s/%s' % (c['transport'], 'answered' if g.get('api', '-') != '-' else 'silent'))
         elif c['kind'] == 'M':
             kinds.append('M/%s/%s/k=%d/%s' % (c['transport'], c['browser'] if c['transport'] == 'direct' else '-', c['nconn'], c['mode']))
         else:
@@ -511,6 +530,8 @@ def correspondence(ctx, verdict, pr):
                                             model=model.get(cid),
                                             how='python3 tools/check.py C06 --replay <this file>  (re-runs the handshake on the real code)'))
         mo = model.get(cid)
+        if mo is None and c['kind'] == 'A':
+            continue          # functional check only: no model line
         if mo is None:
             if not merrs:
                 mism.append((cid, line, io, 'model printed nothing for this case'))
